@@ -45,6 +45,15 @@ def one_case(seed):
         m = instrument(model, dump, values)
         fpvars = sorted(rnd.sample(I.VARS, 2))
         m['recipes'][fpn].update({'fingerprintIf': True, 'fingerprintVars': fpvars, 'fingerprintScript': 'env -0 > "%s/%s.fingerprint.env"\necho fp\n' % (dump, fpn)})
+        # tools define variables for their users (provideTools: environment): a step that declares such a variable sees the tool's value,
+        # whether the tool is used strongly or weakly
+        TOOL_OPT = 'tool-opt-1 with blanks'        # (values of provideTools environments are subject to string substitution: nothing to substitute here)
+        tr = m['recipes'].get('tool')
+        if tr is not None and isinstance(tr.get('provideTools', {}).get('gen'), dict):
+            tr['provideTools']['gen']['environment'] = {'TOOL_OPT': TOOL_OPT}
+            for name, r in m['recipes'].items():
+                if name.startswith('r') and any('gen' in r.get(k, []) for k in ('checkoutTools', 'checkoutToolsWeak', 'buildTools', 'buildToolsWeak', 'packageTools', 'packageToolsWeak')):
+                    r['packageVars'] = sorted(set(r.get('packageVars', [])) | {'TOOL_OPT'}); r['__tool_opt__'] = True
         # a recipe may declare variables that carry the names of the computed ones: the consumed tools still have to be found
         for name, r in m['recipes'].items():
             if name.startswith('r') and any('gen' in r.get(k, []) for k in ('buildTools', 'buildToolsWeak', 'packageTools')) and seed % 2 == 0:
@@ -85,10 +94,13 @@ def one_case(seed):
                     for canary in ('LEAK_CANARY', 'wl_canary', 'Home', 'WL_CANARY_2'):
                         if canary in env: return {'kind': 'host-variable-leaked', 'variable': canary, 'package': name, 'step': step, 'history': log}, log
                     if env.get(wl_extra) != 'whitelisted-value': return {'kind': 'whitelisted-host-variable-missing', 'package': name, 'step': step, 'history': log}, log
-                    extra = [k for k in env if k not in want and k not in BOBVARS and k != wl_extra and not k.startswith('BOB_') and k not in ('HOME', 'TERM', 'USER', 'LANG', 'LOGNAME', 'SHELL', 'TMPDIR', 'TEMP', 'TMP', 'PATHEXT', 'SSH_AGENT_PID', 'SSH_AUTH_SOCK', 'http_proxy', 'https_proxy', 'ftp_proxy', 'no_proxy')]
+                    extra = [k for k in env if k not in want and k not in BOBVARS and k != wl_extra and not (k == 'TOOL_OPT' and r.get('__tool_opt__') and step == 'dist') and not k.startswith('BOB_') and k not in ('HOME', 'TERM', 'USER', 'LANG', 'LOGNAME', 'SHELL', 'TMPDIR', 'TEMP', 'TMP', 'PATHEXT', 'SSH_AGENT_PID', 'SSH_AUTH_SOCK', 'http_proxy', 'https_proxy', 'ftp_proxy', 'no_proxy')]
                     if extra: return {'kind': 'unexpected-variable-visible', 'package': name, 'step': step, 'variables': extra[:5], 'history': log}, log
                 elif 'LEAK_CANARY' not in env:
                     return {'kind': 'preserve-env-did-not-preserve', 'package': name, 'step': step, 'history': log}, log
+                if step == 'dist' and r.get('__tool_opt__') and env.get('TOOL_OPT') != TOOL_OPT:
+                    return {'kind': 'variable-defined-by-a-consumed-tool-has-the-wrong-value', 'package': name, 'step': step, 'expected': TOOL_OPT, 'observed': env.get('TOOL_OPT'),
+                            'tool_lists': {k: r.get(k) for k in ('buildTools', 'buildToolsWeak', 'packageTools', 'packageToolsWeak', 'checkoutToolsWeak') if r.get(k)}, 'history': log}, log
                 # arguments: own previous step, then dependencies in declared order
                 args = [a for a in open(os.path.join(dump, '%s.%s.args' % (name, step)), 'rb').read().decode().split('\0') if a]
                 if step == 'build':
